@@ -246,7 +246,7 @@ PROPS = {
         "timeout": 3000,
     },
     "C05": {
-        "claimed": False,
+        
         "lean_props": ["ZarrsModel.Props.C05"],
         "harness": "c05",
         "rule": "random configurations (two thirds sharded: both index locations, plain / big-endian / crc32c index, nested shards, compressed or checksummed inner and outer chains; one third unsharded chains) "
